@@ -9,12 +9,21 @@ package service
 // with the stored context (or the zero value if it is missing).
 //@ func EndBlocker$3
 //@ props C06 C09 C01 C11 C10 C12 C20 C03
+//@ preserves [C12,C16,C08] open_batches_count_their_pending_requests: cntInv(raw)
 //@ modifies raw, bal, cblog
 //@ preserves wf: WF(raw)
 //@ preserves [C03] deposits_in_custody: depInv(raw, bal)
 //@ requires a3_consumer_ordinary: ordinary(requestContext.Consumer)
 //@ requires called_with_the_stored_context: ctxFound(raw, requestContextID) && requestContext == ctxOf(raw, requestContextID) && rng_RequestContext(requestContext)
 //@ requires providers_bounded: len(requestContext.Providers) <= 32767
+//@ requires [C11] processed_entry_is_well_formed: raw[KNewQ(ctxHeight(ctx), requestContextID)] != bnil && newOK(raw, ctxHeight(ctx), requestContextID)
+//@ preserves [C16,C02,C01,C08] pending_requests_stay_well_formed: actInv(raw)
+//@ requires [C11] queues_are_well_formed: schedInv(raw)
+//@ ensures [C11] contexts_stay_well_formed: ctxAllOK(raw)
+//@ ensures [C11] expiry_entries_stay_well_formed: expAllOK(raw)
+//@ ensures [C11] new_batch_entries_stay_well_formed: newAllOK(raw)
+//@ ensures [C11] queue_pointers_stay_well_formed: ptrAllOK(raw)
+//@ preserves [C11] no_event_in_the_past: futInv(raw, ctxHeight(ctx))
 //@ ensures [C11] queue_entry_consumed: allBase(old(raw), requestContext.ServiceName, requestContext.Providers) || requestContext.State != RUNNING ==>
 //@      raw[KNewQ(ctxHeight(ctx), requestContextID)] == bnil && raw[KNewH(requestContextID)] == bnil
 //@ ensures [C11] queue_entry_consumed_when_a_price_is_not_in_base_denom: !allBase(old(raw), requestContext.ServiceName, requestContext.Providers) && requestContext.State == RUNNING ==>
@@ -66,24 +75,34 @@ package service
 //@ ensures [C15] binding_is_never_deleted: bindFound(raw, request.ServiceName, request.Provider)
 //@ ensures [C16,C15] touches_only_the_binding_and_the_two_markers: forall k Key :: {raw[k]}
 //@      (k != KBind(request.ServiceName, request.Provider) && k != KActID(requestID) && k != KActB(request.ServiceName, request.Provider, request.ExpirationHeight, requestID)) ==> raw[k] == old(raw)[k]
+//@ ensures [C12,C16] uncounts_exactly_this_marker: forall id Bytes :: {cntAct(raw, id)} cntAct(raw, id) == cntAct(old(raw), id) - ((id == ridCtx(requestID) && isActive(old(raw), requestID)) ? 1 : 0)
 
 // EndBlocker$2 = expiredRequestBatchHandler(requestContextID, requestContext): called for every entry of the expiry queue at this height.
 //@ func EndBlocker$2
 //@ props C16 C11 C10 C09 C12 C08 C02 C04 C20
+//@ preserves [C12,C16,C08] open_batches_count_their_pending_requests: cntInv(raw)
 //@ modifies raw, bal, supply, cblog
 //@ preserves wf: WF(raw)
 //@ preserves [C03] deposits_in_custody: depInv(raw, bal)
 //@ requires called_with_the_stored_context: ctxFound(raw, requestContextID) && requestContext == ctxOf(raw, requestContextID) && rng_RequestContext(requestContext)
 //@ preserves [C16,C02,C01] pending_requests_are_well_formed: actInv(raw)
-//@ requires [C11] processed_entry_is_well_formed: raw[KExpQ(ctxHeight(ctx), requestContextID)] != bnil && expOK(raw, ctxHeight(ctx), requestContextID)
-//@ preserves [C11] new_batch_entries_well_formed: forall h Int, id Bytes :: {raw[KNewQ(h, id)]} newOK(raw, h, id)
+//@ requires [C11] processed_entry_is_present: raw[KExpQ(ctxHeight(ctx), requestContextID)] != bnil
+//@ preserves [C11] queues_stay_well_formed: schedInv(raw)
 //@ loop IterateActiveRequests.0 invariant pos_in_range: 0 <= iterator_pos && iterator_pos <= itCount(iterator_snap, iterator_pfx)
 //@ loop IterateActiveRequests.0 invariant snapshot: iterator_snap == old(raw) && iterator_pfx == PActByCtx(requestContextID, batchCounter) && batchCounter == old(requestContext).BatchCounter && cblog == old(cblog)
 //@ loop IterateActiveRequests.0 invariant wf: WF(raw) && depInv(raw, bal)
+//@ loop IterateActiveRequests.0 invariant [C12] counts_of_other_contexts_kept: forall id Bytes :: {raw[KCtx(id)]} {cntAct(raw, id)} id != requestContextID ==> batchOK(raw, id)
 //@ loop IterateActiveRequests.0 invariant records_untouched: forall k Key :: {raw[k]} (!is_KBind(k) && !is_KActB(k) && !is_KActID(k)) ==> raw[k] == iterator_snap[k]
 //@ loop IterateActiveRequests.0 invariant bindings_stay: forall s Str, p Bytes :: {raw[KBind(s, p)]} bindFound(iterator_snap, s, p) ==> bindFound(raw, s, p)
 //@ loop IterateActiveRequests.0 invariant markers_expired_so_far: forall k Key :: {raw[k]} is_KActID(k) ==> raw[k] ==
 //@      ((inPfx(k, iterator_pfx) && iterator_snap[k] != bnil && itIdx(iterator_snap, iterator_pfx, k) < iterator_pos) ? bnil : iterator_snap[k])
+//@ requires [C11] no_event_in_the_past: futInv(raw, ctxHeight(ctx))
+//@ ensures [C11,C10] no_event_in_the_past_kept: (let rc := requestContext in
+//@      !(rc.State == RUNNING && rc.Repeated && (rc.RepeatedTotal < 0 || wrap_i64(rc.BatchCounter) < rc.RepeatedTotal)) || ctxHeight(ctx) - rc.Timeout + rc.RepeatedFrequency <= 9223372036854775807
+//@      ==> futInv(raw, ctxHeight(ctx)))
+//@ ensures [C11,C10] no_event_in_the_past_when_the_frequency_overflows_int64: (let rc := requestContext in
+//@      rc.State == RUNNING && rc.Repeated && (rc.RepeatedTotal < 0 || wrap_i64(rc.BatchCounter) < rc.RepeatedTotal) && ctxHeight(ctx) - rc.Timeout + rc.RepeatedFrequency > 9223372036854775807
+//@      ==> futInv(raw, ctxHeight(ctx)))
 //@ ensures [C11] expiry_entry_consumed: raw[KExpQ(ctxHeight(ctx), requestContextID)] == bnil && raw[KExpH(requestContextID)] == bnil
 //@ ensures [C10,C11] next_batch_scheduled_frequency_after_this_batch_started: (let rc := requestContext in
 //@      rc.State == RUNNING && rc.Repeated && (rc.RepeatedTotal < 0 || wrap_i64(rc.BatchCounter) < rc.RepeatedTotal) ==>
@@ -102,12 +121,20 @@ package service
 // ---------------------------------------------------------------- message handlers (C05: authority; a message debits only its signer)
 //@ func handleMsgDefineService
 //@ props C05 C15 C20
+//@ preserves [C11] no_event_in_the_past: futInv(raw, ctxHeight(ctx))
+//@ preserves [C12,C16,C08] open_batches_count_their_pending_requests: cntInv(raw)
+//@ preserves [C11] queues_stay_well_formed: schedInv(raw)
+//@ preserves [C16,C08,C02,C01] pending_requests_stay_well_formed: actInv(raw)
 //@ modifies raw
 //@ ensures [C15] defines_once: err == NoErr ==> !defFound(old(raw), msg.Name) && raw == old(raw)[KDef(msg.Name) := raw[KDef(msg.Name)]]
 //@ ensures error_changes_nothing: err != NoErr ==> raw == old(raw)
 
 //@ func handleMsgBindService
 //@ props C05 C03 C14 C15 C20
+//@ preserves [C11] no_event_in_the_past: futInv(raw, ctxHeight(ctx))
+//@ preserves [C12,C16,C08] open_batches_count_their_pending_requests: cntInv(raw)
+//@ preserves [C11] queues_stay_well_formed: schedInv(raw)
+//@ preserves [C16,C08,C02,C01] pending_requests_stay_well_formed: actInv(raw)
 //@ modifies raw, bal
 //@ preserves wf: WF(raw)
 //@ preserves [C03] deposits_in_custody: depInv(raw, bal)
@@ -120,6 +147,10 @@ package service
 
 //@ func handleMsgUpdateServiceBinding
 //@ props C05 C03 C14 C20
+//@ preserves [C11] no_event_in_the_past: futInv(raw, ctxHeight(ctx))
+//@ preserves [C12,C16,C08] open_batches_count_their_pending_requests: cntInv(raw)
+//@ preserves [C11] queues_stay_well_formed: schedInv(raw)
+//@ preserves [C16,C08,C02,C01] pending_requests_stay_well_formed: actInv(raw)
 //@ modifies raw, bal
 //@ preserves wf: WF(raw)
 //@ preserves [C03] deposits_in_custody: depInv(raw, bal)
@@ -130,12 +161,20 @@ package service
 
 //@ func handleMsgSetWithdrawAddress
 //@ props C05 C13 C20
+//@ preserves [C11] no_event_in_the_past: futInv(raw, ctxHeight(ctx))
+//@ preserves [C12,C16,C08] open_batches_count_their_pending_requests: cntInv(raw)
+//@ preserves [C11] queues_stay_well_formed: schedInv(raw)
+//@ preserves [C16,C08,C02,C01] pending_requests_stay_well_formed: actInv(raw)
 //@ modifies raw
 //@ ensures [C13,C05] only_the_signers_own_withdrawal_address_changes: raw == old(raw)[KWAddr(msg.Owner) := raw[KWAddr(msg.Owner)]] && withdrawAddrOf(raw, msg.Owner) == msg.WithdrawAddress
 //@ requires a2_validated: len(msg.WithdrawAddress) > 0
 
 //@ func handleMsgDisableServiceBinding
 //@ props C05 C03 C20
+//@ preserves [C11] no_event_in_the_past: futInv(raw, ctxHeight(ctx))
+//@ preserves [C12,C16,C08] open_batches_count_their_pending_requests: cntInv(raw)
+//@ preserves [C11] queues_stay_well_formed: schedInv(raw)
+//@ preserves [C16,C08,C02,C01] pending_requests_stay_well_formed: actInv(raw)
 //@ modifies raw
 //@ preserves wf: WF(raw)
 //@ preserves [C03] deposits_in_custody: depInv(raw, bal)
@@ -144,6 +183,10 @@ package service
 
 //@ func handleMsgEnableServiceBinding
 //@ props C05 C03 C14 C20
+//@ preserves [C11] no_event_in_the_past: futInv(raw, ctxHeight(ctx))
+//@ preserves [C12,C16,C08] open_batches_count_their_pending_requests: cntInv(raw)
+//@ preserves [C11] queues_stay_well_formed: schedInv(raw)
+//@ preserves [C16,C08,C02,C01] pending_requests_stay_well_formed: actInv(raw)
 //@ modifies raw, bal
 //@ preserves wf: WF(raw)
 //@ preserves [C03] deposits_in_custody: depInv(raw, bal)
@@ -155,6 +198,10 @@ package service
 
 //@ func handleMsgRefundServiceDeposit
 //@ props C05 C03 C20
+//@ preserves [C11] no_event_in_the_past: futInv(raw, ctxHeight(ctx))
+//@ preserves [C12,C16,C08] open_batches_count_their_pending_requests: cntInv(raw)
+//@ preserves [C11] queues_stay_well_formed: schedInv(raw)
+//@ preserves [C16,C08,C02,C01] pending_requests_stay_well_formed: actInv(raw)
 //@ modifies raw, bal
 //@ preserves wf: WF(raw)
 //@ preserves [C03] deposits_in_custody: depInv(raw, bal)
@@ -165,6 +212,9 @@ package service
 //@ func handleMsgPauseRequestContext
 //@ preserves [C01,C02,C16,C11] pending_requests_stay_well_formed: actInv(raw)
 //@ props C05 C09 C20
+//@ preserves [C11] no_event_in_the_past: futInv(raw, ctxHeight(ctx))
+//@ preserves [C12,C16,C08] open_batches_count_their_pending_requests: cntInv(raw)
+//@ preserves [C11] queues_stay_well_formed: schedInv(raw)
 //@ modifies raw
 //@ ensures [C05] only_the_consumer_and_never_a_module_context: err == NoErr ==> (let c := ctxOf(old(raw), msg.RequestContextId) in
 //@      ctxFound(old(raw), msg.RequestContextId) && addrEq(msg.Consumer, c.Consumer) && len(c.ModuleName) == 0)
@@ -175,6 +225,9 @@ package service
 //@ func handleMsgStartRequestContext
 //@ preserves [C01,C02,C16,C11] pending_requests_stay_well_formed: actInv(raw)
 //@ props C05 C09 C20
+//@ preserves [C11] no_event_in_the_past: futInv(raw, ctxHeight(ctx))
+//@ preserves [C12,C16,C08] open_batches_count_their_pending_requests: cntInv(raw)
+//@ preserves [C11] queues_stay_well_formed: schedInv(raw)
 //@ modifies raw
 //@ ensures [C05] only_the_consumer_and_never_a_module_context: err == NoErr ==> (let c := ctxOf(old(raw), msg.RequestContextId) in
 //@      ctxFound(old(raw), msg.RequestContextId) && addrEq(msg.Consumer, c.Consumer) && len(c.ModuleName) == 0)
@@ -184,6 +237,9 @@ package service
 //@ func handleMsgKillRequestContext
 //@ preserves [C01,C02,C16,C11] pending_requests_stay_well_formed: actInv(raw)
 //@ props C05 C09 C20
+//@ preserves [C11] no_event_in_the_past: futInv(raw, ctxHeight(ctx))
+//@ preserves [C12,C16,C08] open_batches_count_their_pending_requests: cntInv(raw)
+//@ preserves [C11] queues_stay_well_formed: schedInv(raw)
 //@ modifies raw
 //@ ensures [C05] only_the_consumer_and_never_a_module_context: err == NoErr ==> (let c := ctxOf(old(raw), msg.RequestContextId) in
 //@      ctxFound(old(raw), msg.RequestContextId) && addrEq(msg.Consumer, c.Consumer) && len(c.ModuleName) == 0)
@@ -194,8 +250,12 @@ package service
 //@ func handleMsgUpdateRequestContext
 //@ preserves [C01,C02,C16,C11] pending_requests_stay_well_formed: actInv(raw)
 //@ props C05 C09 C10 C20
+//@ preserves [C11] no_event_in_the_past: futInv(raw, ctxHeight(ctx))
+//@ preserves [C12,C16,C08] open_batches_count_their_pending_requests: cntInv(raw)
+//@ preserves [C11] queues_stay_well_formed: schedInv(raw)
 //@ modifies raw
 //@ requires a2_validated: msg.Timeout >= 0
+//@ requires a12_position_index_fits: len(msg.Providers) <= 32767
 //@ requires stored_in_range: ctxFound(raw, msg.RequestContextId) ==> rng_RequestContext(ctxOf(raw, msg.RequestContextId)) && ctxOf(raw, msg.RequestContextId).BatchCounter < 9223372036854775808
 //@ ensures [C05] only_the_consumer_and_never_a_module_context: err == NoErr ==> (let c := ctxOf(old(raw), msg.RequestContextId) in
 //@      ctxFound(old(raw), msg.RequestContextId) && addrEq(msg.Consumer, c.Consumer) && len(c.ModuleName) == 0)
@@ -205,6 +265,10 @@ package service
 
 //@ func handleMsgRespondService
 //@ props C05 C08 C02 C20
+//@ preserves [C11] no_event_in_the_past: futInv(raw, ctxHeight(ctx))
+//@ preserves [C12,C16,C08] open_batches_count_their_pending_requests: cntInv(raw)
+//@ preserves [C11] queues_stay_well_formed: schedInv(raw)
+//@ preserves [C16,C08,C02,C01] pending_requests_stay_well_formed: actInv(raw)
 //@ modifies raw, bal, supply, cblog
 //@ requires [C20] slash_and_refund_can_be_paid: requestFound(raw, msg.RequestId) ==> (!hasNeg(bindOf(raw, reqSvc(raw, msg.RequestId), reqProv(raw, msg.RequestId)).Deposit, slashBurn(raw, msg.RequestId)) &&
 //@      canPay(bal, depositAcc, slashBurn(raw, msg.RequestId)) && canPay(bankBurn(bal, depositAcc, slashBurn(raw, msg.RequestId)), requestAcc, reqFee(raw, msg.RequestId)))
@@ -220,6 +284,10 @@ package service
 
 //@ func handleMsgWithdrawEarnedFees
 //@ props C05 C13 C20
+//@ preserves [C11] no_event_in_the_past: futInv(raw, ctxHeight(ctx))
+//@ preserves [C12,C16,C08] open_batches_count_their_pending_requests: cntInv(raw)
+//@ preserves [C11] queues_stay_well_formed: schedInv(raw)
+//@ preserves [C16,C08,C02,C01] pending_requests_stay_well_formed: actInv(raw)
 //@ modifies raw, bal
 //@ requires a3_signer_address: len(msg.Owner) == 20
 //@ requires owner_total_covers_provider: forall d Str :: pfxSum(raw, POwnerEarned(msg.Owner), d) >= pfxSum(raw, PEarned(msg.Provider), d)
@@ -240,11 +308,14 @@ package service
 // ---------------------------------------------------------------- EndBlocker: the two queue scans of one block
 //@ func EndBlocker
 //@ props C11 C03 C16 C20 C10
+//@ preserves [C12,C16,C08] open_batches_count_their_pending_requests: cntInv(raw)
 //@ modifies raw, bal, supply, cblog
 //@ preserves wf: WF(raw)
 //@ preserves [C03] deposits_in_custody: depInv(raw, bal)
-//@ requires [C16] pending_requests_are_well_formed: actInv(raw)
-//@ requires [C11] queues_are_well_formed: schedInv(raw)
+//@ preserves [C16,C08,C02,C01] pending_requests_are_well_formed: actInv(raw)
+//@ preserves [C11] queues_are_well_formed: schedInv(raw)
+//@ requires [C11] no_event_in_the_past: futInv(raw, ctxHeight(ctx))
+//@ ensures [C11,C10] every_event_due_in_this_block_is_processed_and_none_lies_in_the_past: futInv(raw, ctxHeight(ctx) + 1)
 //@ ensures [C11,C10] every_expiry_due_in_this_block_is_processed: forall id Bytes :: {raw[KExpQ(ctxHeight(ctx), id)]} raw[KExpQ(ctxHeight(ctx), id)] == bnil
 //@ loop IterateExpiredRequestBatch.0 invariant pos_in_range: 0 <= iterator_pos && iterator_pos <= itCount(iterator_snap, iterator_pfx)
 //@ loop IterateExpiredRequestBatch.0 invariant snapshot: iterator_snap == old(raw) && iterator_pfx == PExpQ(ctxHeight(ctx)) && expirationHeight == ctxHeight(ctx)
@@ -254,13 +325,19 @@ package service
 //@ loop 0 invariant events_only: true
 //@ loop IterateNewRequestBatch.0 invariant pos_in_range: 0 <= iterator_pos && iterator_pos <= itCount(iterator_snap, iterator_pfx)
 //@ loop IterateNewRequestBatch.0 invariant snapshot: iterator_snap == call_raw && iterator_pfx == PNewQ(ctxHeight(ctx)) && requestBatchHeight == ctxHeight(ctx)
-//@ loop IterateNewRequestBatch.0 invariant wf: WF(raw) && depInv(raw, bal)
+//@ loop IterateNewRequestBatch.0 invariant wf: WF(raw) && depInv(raw, bal) && actInv(raw) && schedInv(raw) && cntInv(raw)
+//@ loop IterateNewRequestBatch.0 invariant [C11] no_event_in_the_past: futInv(raw, ctxHeight(ctx))
+//@ loop IterateNewRequestBatch.0 invariant [C11] visited_entries_consumed: forall id Bytes :: {raw[KNewQ(ctxHeight(ctx), id)]}
+//@      (iterator_snap[KNewQ(ctxHeight(ctx), id)] == bnil || itIdx(iterator_snap, iterator_pfx, KNewQ(ctxHeight(ctx), id)) < iterator_pos) ==> raw[KNewQ(ctxHeight(ctx), id)] == bnil
+//@ loop IterateNewRequestBatch.0 invariant unvisited_entries_untouched: forall id Bytes :: {raw[KNewQ(ctxHeight(ctx), id)]}
+//@      (iterator_snap[KNewQ(ctxHeight(ctx), id)] != bnil && itIdx(iterator_snap, iterator_pfx, KNewQ(ctxHeight(ctx), id)) >= iterator_pos) ==>
+//@      raw[KNewQ(ctxHeight(ctx), id)] == iterator_snap[KNewQ(ctxHeight(ctx), id)]
 //@ loop IterateNewRequestBatch.0 invariant [C11] expiry_phase_done: forall id Bytes :: {raw[KExpQ(ctxHeight(ctx), id)]} raw[KExpQ(ctxHeight(ctx), id)] == bnil
 //@ loop IterateNewRequestBatch.0 invariant new_entries_of_snapshot_ok: forall id Bytes :: {iterator_snap[KNewQ(ctxHeight(ctx), id)]} newOK(iterator_snap, ctxHeight(ctx), id)
 //@ loop IterateNewRequestBatch.0 invariant unvisited_contexts_untouched: forall id Bytes :: {raw[KCtx(id)]}
 //@      (iterator_snap[KNewQ(ctxHeight(ctx), id)] != bnil && itIdx(iterator_snap, iterator_pfx, KNewQ(ctxHeight(ctx), id)) >= iterator_pos) ==>
 //@      raw[KCtx(id)] == iterator_snap[KCtx(id)]
-//@ loop IterateExpiredRequestBatch.0 invariant new_entries_ok: forall h Int, id Bytes :: {raw[KNewQ(h, id)]} newOK(raw, h, id)
+//@ loop IterateExpiredRequestBatch.0 invariant queues_ok: schedInv(raw) && cntInv(raw) && futInv(raw, ctxHeight(ctx))
 //@ loop IterateExpiredRequestBatch.0 invariant unvisited_contexts_untouched: forall id Bytes :: {raw[KCtx(id)]} {raw[KExpH(id)]} {raw[KNewH(id)]}
 //@      (iterator_snap[KExpQ(ctxHeight(ctx), id)] != bnil && itIdx(iterator_snap, iterator_pfx, KExpQ(ctxHeight(ctx), id)) >= iterator_pos) ==>
 //@      raw[KCtx(id)] == iterator_snap[KCtx(id)] && raw[KExpH(id)] == iterator_snap[KExpH(id)] && raw[KNewH(id)] == iterator_snap[KNewH(id)]
